@@ -1,11 +1,14 @@
 #!/bin/bash
 # usage: check.sh <ID> <quick|thorough> [extra lab args]
 # exit 0 = held, 1 = VIOLATION, 3 = inconclusive
-. /verif/bin/env.sh
+. "$(dirname "${BASH_SOURCE[0]}")/env.sh"
 ID="$1"; TIER="${2:-quick}"; shift; shift
 case "$ID" in
-  C01|C10|C18) /verif/bin/build.sh all || { echo "build failed"; exit 2; } ;;
-  *) /verif/bin/build.sh || { echo "build failed"; exit 2; } ;;
+  C01|C10|C18) "$VERIF_ROOT/bin/build.sh" all || { echo "build failed"; exit 2; } ;;
+  *) "$VERIF_ROOT/bin/build.sh" || { echo "build failed"; exit 2; } ;;
 esac
-cd /verif
-exec /verif/.build/lab check "$ID" -tier "$TIER" "$@"
+if [ "$ID" = "C08" ] && [ "$TIER" = "thorough" ]; then
+  "$VERIF_ROOT/bin/build.sh" asan || echo "asan build failed (the ASan part of C08 will be reported inconclusive)"
+fi
+cd "$VERIF_ROOT"
+exec "$VERIF_ROOT/.build/lab" check "$ID" -tier "$TIER" "$@"
